@@ -46,7 +46,7 @@ def main():
         # run only the demo's tests
         tests = re.findall(r"^func (Test\w+)\(", open(demo).read(), re.M)
         runre = "^(" + "|".join(tests) + ")$"
-        rc0, o0 = sh("go test -vet=off -count=1 -run '%s' ./%s" % (runre, pkgdir), cwd=wt)
+        rc0, o0 = sh("go test %s -vet=off -count=1 -run '%s' ./%s" % (os.environ.get('DEMOFLAGS',''), runre, pkgdir), cwd=wt)
         res["demo_without_change"] = "pass" if rc0 == 0 else "FAIL"
         os.remove(dst)
         rc, o = sh("git apply %s" % patch, cwd=wt)
@@ -58,7 +58,7 @@ def main():
         rcs2, _ = sh("go test -vet=off -count=1 ./...", cwd=wt)
         res["suite_with_change_2"] = "pass" if rcs2 == 0 else "FAIL"
         shutil.copy(demo, dst)
-        rc1, o1 = sh("go test -vet=off -count=1 -run '%s' ./%s" % (runre, pkgdir), cwd=wt)
+        rc1, o1 = sh("go test %s -vet=off -count=1 -run '%s' ./%s" % (os.environ.get('DEMOFLAGS',''), runre, pkgdir), cwd=wt)
         res["demo_with_change"] = "fail" if rc1 != 0 else "PASS"
         res["demo_output_with_change"] = "\n".join([l for l in o1.splitlines() if re.search(r"---|Error|FAIL|panic|expected|actual", l)][:12])
         res["demo_cmd"] = "cp demo_test.go <repo>/%s/zz_seed_demo_test.go && go test -vet=off -count=1 -run '%s' ./%s" % (pkgdir, runre, pkgdir)
